@@ -523,7 +523,16 @@ fn valid_component(t: &str) -> bool {
 
 const OK_ERRNOS: &[&str] = &[
     "EACCES", "ENOSPC", "EIO", "EXDEV", "EROFS", "EMFILE", "EPERM", "EDQUOT", "ENOTDIR", "EISDIR", "ENAMETOOLONG", "ELOOP",
-    "ENOMEM", "EBUSY", "ENOTEMPTY",
+    "ENOMEM", "EBUSY", "ENOTEMPTY", "EINTR",
+];
+
+/// The errno dimension of the fault grid: what mkdir/open/write/rename can plausibly return, one per distinct
+/// `io::ErrorKind` (AlreadyExists, DirectoryNotEmpty, NotFound, PermissionDenied x2, StorageFull, Uncategorized(EIO),
+/// CrossesDevices, NotADirectory, IsADirectory, ReadOnlyFilesystem, Uncategorized(EMFILE), InvalidFilename,
+/// Interrupted — retried by std for open and write, fatal for mkdir and rename —, ResourceBusy, QuotaExceeded).
+const GRID_ERRNOS: &[&str] = &[
+    "EEXIST", "ENOTEMPTY", "ENOENT", "EACCES", "EPERM", "ENOSPC", "EIO", "EXDEV", "ENOTDIR", "EISDIR", "EROFS", "EMFILE", "ENAMETOOLONG",
+    "EINTR", "EBUSY", "EDQUOT",
 ];
 
 /// `none` or (syscall, first, last, errno): every call from the first-th to the last-th fails
@@ -787,6 +796,107 @@ fn exec_scaffold(idx: usize, raw: &str, pre: &str, fault: &str, at_raw: bool) ->
     o
 }
 
+/// `race <arg> kind=<k>`: a competitor creates the target after the program's exists() probe and before its
+/// rename. The rename is held back with `strace -e inject=rename:delay_enter=…` so that the competitor (this
+/// function, which waits for the staging directory `.NAME.sf-new-*` to appear) always gets in first.
+/// Tolerated outcomes: the competitor's entry is kept exactly as created and the command fails (`race kept`), or
+/// — only possible for an EMPTY directory, which rename(2) replaces — the complete project (`race replaced`).
+/// Never a staging directory left behind.
+fn exec_race(idx: usize, raw: &str, kind: &str) -> Outcome {
+    if raw.contains('\0') || raw.chars().count() > 64 || !["file", "emptydir", "dir", "symlink", "dangling"].contains(&kind) {
+        return Outcome::bad();
+    }
+    let t = oracle_trim(raw);
+    if !oracle_name_ok(t) {
+        return Outcome::bad();
+    }
+    let sfx = sf();
+    let mut o = Outcome::default();
+    let mut last = String::new();
+    for attempt in 0..3 {
+        let work = sfx.scratch.join(format!("c{idx}"));
+        let _ = fs::remove_dir_all(&work);
+        let cwd = work.join("cwd");
+        fs::create_dir_all(&cwd).unwrap();
+        let trace = work.join("trace.txt");
+        let mut child = Command::new("strace")
+            .args(["-f", "-o"])
+            .arg(&trace)
+            .args(["-e", "trace=rename", "-e", "inject=rename:delay_enter=300000:when=1"])
+            .arg(&sfx.bin)
+            .args(["new", "--", raw])
+            .current_dir(&cwd)
+            .stdin(Stdio::null())
+            .stdout(Stdio::null())
+            .stderr(Stdio::null())
+            .spawn()
+            .expect("spawn strace");
+        // wait for the staging directory
+        let t0 = std::time::Instant::now();
+        let mut seen = false;
+        while t0.elapsed() < std::time::Duration::from_secs(10) {
+            if let Ok(rd) = fs::read_dir(&cwd) {
+                if rd.flatten().any(|e| e.file_name().to_string_lossy().contains(".sf-new-")) {
+                    seen = true;
+                    break;
+                }
+            }
+            if child.try_wait().ok().flatten().is_some() {
+                break;
+            }
+            std::thread::sleep(std::time::Duration::from_micros(200));
+        }
+        let mut created = false;
+        if seen {
+            let target = cwd.join(t);
+            created = match kind {
+                "file" => fs::OpenOptions::new().write(true).create_new(true).open(&target).and_then(|mut f| std::io::Write::write_all(&mut f, b"x")).is_ok(),
+                "emptydir" => fs::create_dir(&target).is_ok(),
+                "dir" => fs::create_dir(&target).is_ok() && fs::write(target.join("keep"), "x").is_ok(),
+                "symlink" => {
+                    fs::write(work.join("elsewhere"), "x").unwrap();
+                    std::os::unix::fs::symlink("../elsewhere", &target).is_ok()
+                }
+                _ => std::os::unix::fs::symlink("../nowhere", &target).is_ok(),
+            };
+        }
+        let status = child.wait().map(|s| s.code()).unwrap_or(None);
+        let after = snapshot(&cwd);
+        let staging: Vec<&String> = after.keys().filter(|k| k.contains(".sf-new-")).collect();
+        let competitor_intact = match kind {
+            "file" => after.get(t) == Some(&Entry::File(b"x".to_vec())) && after.len() == 1,
+            "emptydir" => after.get(t) == Some(&Entry::Dir) && after.len() == 1,
+            "dir" => after.get(t) == Some(&Entry::Dir) && after.get(&format!("{t}/keep")) == Some(&Entry::File(b"x".to_vec())) && after.len() == 2,
+            "symlink" => after.get(t) == Some(&Entry::Link("../elsewhere".into())) && after.len() == 1,
+            _ => after.get(t) == Some(&Entry::Link("../nowhere".into())) && after.len() == 1,
+        };
+        let _ = fs::remove_dir_all(&work);
+        last = format!("attempt {attempt}: staging seen={seen} competitor created={created} status={status:?} entries={:?}", after.keys().take(5).collect::<Vec<_>>());
+        if !seen || !created {
+            // the competitor lost the race (or the program never got as far as staging): try again
+            continue;
+        }
+        o.nontrivial = true;
+        o.bumps.push(format!("race:{kind}"));
+        if !staging.is_empty() {
+            o.answer = "race leftover".into();
+            o.fails.push(("staging_left_behind".into(), format!("race kind={kind} name={raw:?} status={status:?}: left behind {:?}", staging.iter().take(3).collect::<Vec<_>>())));
+        } else if status == Some(0) && kind == "emptydir" && check_complete(sfx, t, &after).is_empty() && after.keys().all(|k| k == t || k.starts_with(&format!("{t}/"))) {
+            o.answer = "race replaced".into();
+        } else if status != Some(0) && status.is_some() && competitor_intact {
+            o.answer = "race kept".into();
+        } else {
+            o.answer = "race violation".into();
+            let class = if status == Some(0) { "existing_target_modified" } else { "not_all_or_nothing" };
+            o.fails.push((class.into(), format!("race kind={kind} name={raw:?}: {last}")));
+        }
+        return o;
+    }
+    o.answer = "race lost".into();
+    o.fails.push(("race_not_reproduced".into(), last));
+    o
+}
+
 /// `project <arg>`: run the real binary in an empty directory and print the WHOLE generated tree — every
 /// directory and every file with its full content (public key shown as `<<PUBKEY>>`, keypair file as `KEYPAIR`).
 fn exec_project(idx: usize, raw: &str) -> Outcome {
@@ -873,6 +983,10 @@ fn exec_line(idx: usize, line: &str) -> Outcome {
         ["name", a] => match uncps(a) {
             Some(raw) => exec_name(&raw),
             None => Outcome::bad(),
+        },
+        ["race", a, kind] => match (uncps(a), kind.strip_prefix("kind=")) {
+            (Some(raw), Some(kind)) => exec_race(idx, &raw, kind),
+            _ => Outcome::bad(),
         },
         ["project", a] => match uncps(a) {
             Some(raw) => exec_project(idx, &raw),
@@ -1202,32 +1316,57 @@ fn gen_scaffold_cases(rng: &mut Rng, thorough: bool, cases: &mut Vec<Vec<String>
     };
     let counts = &sf().counts;
     let names: &[&str] = if thorough { &["ab", "counter-program", "x9_y", "a", "q-1"] } else { &["ab", "counter-program", "x9_y"] };
-    // every fault position of every syscall class, two positions past the end included
-    let errnos: &[(&str, &[&str])] = if thorough {
-        &[
-            ("mkdir", &["EACCES", "EEXIST", "ENOENT", "ENOSPC", "EROFS", "ENOTDIR"]),
-            ("openat", &["ENOSPC", "EACCES", "ENOENT", "EEXIST", "EMFILE", "EROFS"]),
-            ("write", &["ENOSPC", "EIO", "EDQUOT", "ENOENT"]),
-            ("rename", &["EXDEV", "EACCES", "ENOENT", "EEXIST", "ENOTEMPTY", "EBUSY"]),
-        ]
-    } else {
-        &[
-            ("mkdir", &["EACCES", "EEXIST", "ENOENT"]),
-            ("openat", &["ENOSPC", "ENOENT"]),
-            ("write", &["ENOSPC", "EIO"]),
-            ("rename", &["EXDEV", "EACCES"]),
-        ]
-    };
-    for name in names {
+    // the fault grid: (syscall class) x (position, two past the end included) x (errno).
+    // thorough: the full product for three names. quick: every errno at the positions where the code (or std)
+    // looks at the error kind or where the step is special — staging mkdir, first/last/forgiven mkdir, first and last
+    // file creation, first and last file write, first println, the rename — and a rotating sample of errnos elsewhere.
+    let classes: [&str; 4] = ["mkdir", "openat", "write", "rename"];
+    for (ni, name) in names.iter().enumerate() {
         push("clean run", format!("scaffold {} pre=none fault=none", cps(name)), cases);
-        for (sys, errs) in errnos {
-            for k in 1..=counts[*sys] + 2 {
-                for e in *errs {
-                    push("fault position", format!("scaffold {} pre=none fault={sys}:{k}:{e}", cps(name)), cases);
+        for (ci, sys) in classes.iter().enumerate() {
+            let n = counts[*sys];
+            for k in 1..=n + 2 {
+                let special = match *sys {
+                    "mkdir" => k == 1 || k == 2 || k == 6 || k == 8 || k == n,
+                    "openat" => k == 1 || k == n,
+                    "write" => k == 1 || k == 12 || k == 13 || k == n,
+                    _ => k == 1,
+                };
+                let all = (thorough && ni < 3) || (special && ni == 0);
+                if all {
+                    for e in GRID_ERRNOS {
+                        push("fault grid", format!("scaffold {} pre=none fault={sys}:{k}:{e}", cps(name)), cases);
+                    }
+                } else {
+                    for j in 0..2 {
+                        let e = GRID_ERRNOS[(k * 2 + j + ci * 5 + ni * 3) % GRID_ERRNOS.len()];
+                        push("fault grid (errno sample)", format!("scaffold {} pre=none fault={sys}:{k}:{e}", cps(name)), cases);
+                    }
+                    if *sys == "mkdir" {
+                        // the three kinds create_dir_all distinguishes
+                        for e in ["EEXIST", "ENOENT", "EACCES"] {
+                            push("fault grid (errno sample)", format!("scaffold {} pre=none fault={sys}:{k}:{e}", cps(name)), cases);
+                        }
+                    }
                 }
             }
         }
     }
+    // every errno at the rename when the target is occupied behind exists()'s back (dangling symlink)
+    for e in GRID_ERRNOS {
+        push("fault grid, dangling target", format!("scaffold {} pre=dangling fault=rename:1:{e}", cps("ab")), cases);
+    }
+    // EINTR storms: std keeps retrying open / write
+    push("EINTR", format!("scaffold {} pre=none fault=openat:3..6:EINTR", cps("ab")), cases);
+    push("EINTR", format!("scaffold {} pre=none fault=write:12..20:EINTR", cps("ab")), cases);
+    push("EINTR", format!("scaffold {} pre=none fault=write:1..40:EINTR", cps("ab")), cases);
+    // a competitor takes the target between the exists() probe and the rename
+    for name in ["ab", "counter-program"] {
+        for kind in ["file", "emptydir", "dir", "symlink", "dangling"] {
+            push("race for the target", format!("race {} kind={kind}", cps(name)), cases);
+        }
+    }
+    push("race for the target", format!("race {} kind=dir", cps(" ab\t")), cases);
     // staging-name attempts: EEXIST on the first N mkdir calls (strace range injection). With 256 attempts the
     // 256th candidate still succeeds after 255 failures, 256 failures exhaust the loop.
     for n in [2usize, 3, 254, 255, 256, 257, 300] {
@@ -1279,9 +1418,10 @@ fn gen_scaffold_cases(rng: &mut Rng, thorough: bool, cases: &mut Vec<Vec<String>
     }
     // a dangling symlink passes the exists() probe, so the whole sequence runs before the rename fails:
     // every fault position again on top of it
-    for (sys, errs) in errnos {
+    for (ci, sys) in classes.iter().enumerate() {
         for k in 1..=counts[*sys] + 2 {
-            push("dangling symlink + fault position", format!("scaffold {} pre=dangling fault={sys}:{k}:{}", cps("ab"), errs[0]), cases);
+            let e = GRID_ERRNOS[(k + ci * 3) % GRID_ERRNOS.len()];
+            push("dangling symlink + fault position", format!("scaffold {} pre=dangling fault={sys}:{k}:{e}", cps("ab")), cases);
         }
     }
     // padded argument with a pre-existing target at the trimmed name; invalid names with faults
